@@ -1008,6 +1008,12 @@ class Evaluator:
             if chosen is not None:
                 return self.eval(chosen["body"], env, st)
         sc = self.eval(n["scrut"], env, st)
+        if sc is not None and not is_form(sc) and sc[0] == "if" and len(sc) == 3 and self.iflet in ("then", "else"):
+            # the scrutinee is itself the two-way outcome of an `if let` the case could not decide (a helper that returns
+            # `Some(..)` when both ends are elements and `None` otherwise): the case says which way to read such tests
+            alt_ = sc[1] if self.iflet == "then" else sc[2]
+            if alt_ is not None:
+                sc = alt_
         wrapped = any(a.get("p") in ("tstruct",) and (a.get("res") or {}).get("path", "").split("::")[-1] in ("Ok", "Err", "Some") for arm in n["arms"] for a in _alts(arm["pat"]))
         wrapped_ok = any(a.get("p") in ("tstruct",) and (a.get("res") or {}).get("path", "").split("::")[-1] == "Ok" for arm in n["arms"] for a in _alts(arm["pat"]))
         if sc is not None and ((not is_form(sc) and (sc[0] in ("tup", "some", "none", "str", "err") or (sc[0] == "variant" and wrapped))) or (wrapped_ok and (is_form(sc) or sc[0] == "obj"))):
